@@ -1,7 +1,7 @@
 (* SessHandle.v -- dispatch lemmas behind C02 (and reused by C01, C08, C10):
    handle_frame acts on the view of the frame's own stream id only. *)
 From Coq Require Import List NArith ZArith Lia Bool.
-From AnyTLS Require Import Bytes Cmd Generated GeneratedFacts Frame Reader Session BytesFacts FrameProofs SessTable.
+From AnyTLS Require Import Bytes Cmd Generated FactsCore FactsSession Frame Reader Session BytesFacts FrameProofs SessTable.
 Import ListNotations.
 Import Sess.
 Open Scope N_scope.
